@@ -216,12 +216,14 @@ def cov(self, other, where=(-inf, inf), lag=0, clip="pre"):
         if clip == "pre" and where[1] != inf:
             where[1] = where[1] - lag
         other = other.shift(-lag)
+    _assert_closeds_equal(self, other)
     mask = self.isna() | other.isna()
     self = self.mask(mask)
     other = other.mask(mask)
-    return (self * other).clip(*where).mean() - self.clip(*where).mean() * other.clip(
-        *where
-    ).mean()
+    # centred form of mean(f*g) - mean(f)*mean(g): no cancellation when the means are large relative to the spread
+    self_mean = self.clip(*where).mean()
+    other_mean = other.clip(*where).mean()
+    return ((self - self_mean) * (other - other_mean)).clip(*where).mean()
 
 
 @Appender(examples.corr_example, join="\n", indents=1)
